@@ -52,8 +52,17 @@ for attempt in range(3):
 print("touched-package baseline tests: %d, never passing in 3 runs: %d %s"%(len(rel),len(missing),missing[:8]))
 PY
 tail -1 $log
+# evaluate against /repo's CURRENT head + the patch (models follow /repo's head, not the commit the
+# seeding agent started from)
+E=/tmp/seed/$id.eval
+git -C /repo worktree remove --force $E 2>/dev/null
+git -C /repo worktree add -q --detach $E HEAD
+if (cd $E && git apply $S/patch.diff 2>>$log); then say "patch applies to current /repo head: yes"; else say "patch applies to current /repo head: NO (evaluating on the agent's worktree instead)"; E=$W; fi
 for c in "$@"; do
+  base=$(cd /verif && ./check $c quick 2>&1 | tail -1)
+  say "-- ./check $c quick on unchanged /repo: ${base:0:120}"
   say "-- ./check $c quick against the changed tree:"
-  (cd /verif && VERIF_REPO=$W ./check $c quick 2>&1 | tail -6) | tee -a $log
+  (cd /verif && VERIF_REPO=$E ./check $c quick 2>&1 | grep -E "failing input|no longer checks|VIOLATION|^OK|KNOWN" | grep -v KNOWN-FINDING | cut -c1-400 | tail -6) | tee -a $log
   [ -f /verif/replays/$c-quick.json ] && cp /verif/replays/$c-quick.json $S/replay-$c.json
 done
+[ "$E" != "$W" ] && git -C /repo worktree remove --force $E
